@@ -152,7 +152,8 @@ class DexModel:
 
 
 # ---- primitives -----------------------------------------------------------------------------------
-def uleb(v):
+def uleb(v, pad=0):
+    """pad > 0: a valid but NON-minimal encoding, `pad` redundant high groups (at most 5 bytes in all)"""
     assert v >= 0
     out = bytearray()
     while True:
@@ -162,18 +163,29 @@ def uleb(v):
             out.append(b | 0x80)
         else:
             out.append(b)
-            return bytes(out)
+            break
+    pad = min(pad, 5 - len(out))
+    if pad > 0:
+        out[-1] |= 0x80
+        out += b"\x80" * (pad - 1) + b"\x00"
+    return bytes(out)
 
 
-def sleb(v):
+def sleb(v, pad=0):
     out = bytearray()
     while True:
         b = v & 0x7F
         v >>= 7
         if (v == 0 and not b & 0x40) or (v == -1 and b & 0x40):
             out.append(b)
-            return bytes(out)
+            break
         out.append(b | 0x80)
+    pad = min(pad, 5 - len(out))
+    if pad > 0:
+        neg = bool(out[-1] & 0x40)
+        out[-1] |= 0x80
+        out += (b"\xff" if neg else b"\x80") * (pad - 1) + (b"\x7f" if neg else b"\x00")
+    return bytes(out)
 
 
 def utf16_units(s):
@@ -427,11 +439,13 @@ class Writer:
                     continue
                 enc = b""
                 n = len(t.handlers)
-                enc += sleb(-n if t.catch_all is not None else n)
+                fat = getattr(code, "fat_leb", None)     # callable -> pad for the next number, or None (minimal encodings)
+                pad = fat if fat else (lambda: 0)
+                enc += sleb(-n if t.catch_all is not None else n, pad())
                 for ty, addr in t.handlers:
-                    enc += uleb(self.tidx[ty]) + uleb(addr)
+                    enc += uleb(self.tidx[ty], pad()) + uleb(addr, pad())
                 if t.catch_all is not None:
-                    enc += uleb(t.catch_all)
+                    enc += uleb(t.catch_all, pad())
                 keyoff[k] = len(hl)
                 hl.append(enc)
             prefix = uleb(len(hl))
